@@ -81,16 +81,101 @@ func neverFails(c *Ctx, fn *ssa.Function, name string) string {
 // errDropExceptions: named sites, keyed function|callee|argument type, one reason each.
 var errDropExceptions = map[string]string{
 	"cert.CertificateContext.GeneratePrivateKey|(*cert.CertificateContext).SetPrivateKey|": "the key was generated a few lines above from the curves table / rsa.GenerateKey, so SetPrivateKey's only error paths (unknown curve, unknown key type) cannot be taken",
-	"cert.NewKeyUsage|encoding/asn1.Marshal|encoding/asn1.BitString":                       "marshalling a BIT STRING value cannot fail",
-	"cert.NewSubjectAlternativeName|encoding/asn1.Marshal|encoding/asn1.RawValue":          "marshalling a RawValue SEQUENCE wrapper cannot fail",
-	"cert.NewBasicConstraints|encoding/asn1.Marshal|cert.BasicConstraints":                 "marshalling a struct of a bool and an int cannot fail",
-	"cert.NewAuthorityInfoAccess|encoding/asn1.Marshal|encoding/asn1.ObjectIdentifier":     "marshalling the constant id-ad-ocsp OID cannot fail",
-	"cert.NewAuthorityInfoAccess|encoding/asn1.Marshal|encoding/asn1.RawValue":             "marshalling a RawValue SEQUENCE wrapper cannot fail",
-	"cert.makeExplicit|encoding/asn1.Marshal|encoding/asn1.RawValue":                       "marshalling a RawValue wrapper cannot fail",
-	"filesystem.FsDb.importCertConfigFile|(io/fs.File).Close|":                             "closing a file that was only read",
-	"filesystem.importFiles$1|(io/fs.File).Close|":                                         "closing a file that was only read (deferred)",
-	"cli.init#1$1|(db.Database).Close|":                                                    "FsDb.Close has nothing to flush (deferred)",
-	"cli.init#1$2|(*github.com/spf13/cobra.Command).Help|":                                 "help text output",
+}
+
+// benignDrop: discarded errors that cannot hide a failure, described by what is called (not by where).
+func benignDrop(c *Ctx, fn *ssa.Function, ci ssa.CallInstruction, name string) string {
+	inCli := strings.HasSuffix(fn.Pkg.Pkg.Path(), "/cli")
+	switch {
+	case name == "(io/fs.File).Close":
+		return "closing a file opened through io/fs, a read-only interface: nothing can be lost"
+	case inCli && strings.HasSuffix(name, "Database).Close"):
+		return "closing the database at the end of a command: FsDb.Close has nothing to flush"
+	case inCli && strings.HasSuffix(name, "cobra.Command).Help"):
+		return "help text output"
+	case name == "encoding/asn1.Marshal" || name == "encoding/asn1.MarshalWithParams":
+		if len(ci.Common().Args) > 0 {
+			if why := marshalCannotFail(c, unwrapIface(ci.Common().Args[0])); why != "" {
+				return why
+			}
+		}
+	}
+	if f := ci.Common().StaticCallee(); f != nil && c.InModule(f) && f.Blocks != nil {
+		if why := cannotFail(c, f, 0); why != "" {
+			return why
+		}
+	}
+	return ""
+}
+
+// marshalCannotFail: values whose DER encoding cannot fail: bit strings, raw wrappers, package-level constant OIDs,
+// structs of booleans and integers.
+func marshalCannotFail(c *Ctx, v ssa.Value) string {
+	t := v.Type()
+	switch typeShort(c, t) {
+	case "encoding/asn1.BitString":
+		return "marshalling a BIT STRING value cannot fail"
+	case "encoding/asn1.RawValue":
+		return "marshalling a RawValue wrapper cannot fail"
+	case "encoding/asn1.ObjectIdentifier":
+		if u, ok := v.(*ssa.UnOp); ok && u.Op == token.MUL {
+			if _, isG := u.X.(*ssa.Global); isG {
+				return "marshalling a package-level constant OID cannot fail"
+			}
+		}
+		return ""
+	}
+	if st, ok := t.Underlying().(*types.Struct); ok && st.NumFields() > 0 {
+		for i := 0; i < st.NumFields(); i++ {
+			b, ok := st.Field(i).Type().Underlying().(*types.Basic)
+			if !ok || b.Info()&(types.IsBoolean|types.IsInteger) == 0 {
+				return ""
+			}
+		}
+		return "marshalling a struct of booleans and integers cannot fail"
+	}
+	return ""
+}
+
+// cannotFail: a module function all of whose error results are nil or come from calls that cannot fail.
+func cannotFail(c *Ctx, f *ssa.Function, depth int) string {
+	idx := errResultIndex(f.Signature)
+	if idx < 0 || depth > 3 {
+		return ""
+	}
+	for _, ret := range returnsOf(f) {
+		rr := retResults(ret)
+		if idx >= len(rr) {
+			return ""
+		}
+		for _, pe := range phiEdges(rr[idx], ret.Block()) {
+			switch x := pe.Val.(type) {
+			case *ssa.Const:
+				if x.Value != nil {
+					return ""
+				}
+			case *ssa.Extract:
+				call, ok := x.Tuple.(*ssa.Call)
+				if !ok {
+					return ""
+				}
+				name := calleeFullName(call)
+				ok2 := false
+				if (name == "encoding/asn1.Marshal" || name == "encoding/asn1.MarshalWithParams") && len(call.Call.Args) > 0 && marshalCannotFail(c, unwrapIface(call.Call.Args[0])) != "" {
+					ok2 = true
+				}
+				if g := call.Call.StaticCallee(); !ok2 && g != nil && c.InModule(g) && g.Blocks != nil && g != f && cannotFail(c, g, depth+1) != "" {
+					ok2 = true
+				}
+				if !ok2 {
+					return ""
+				}
+			default:
+				return ""
+			}
+		}
+	}
+	return "every error " + c.FuncKey(f) + " can return comes from an encoding that cannot fail"
 }
 
 func ruleErrDrop(c *Ctx, r *Rep) {
@@ -140,6 +225,10 @@ func ruleErrDrop(c *Ctx, r *Rep) {
 		}
 		if why, ok := errDropExceptions[key]; ok {
 			r.Ok("exception|"+key, pos, "named exception", why)
+			continue
+		}
+		if why := benignDrop(c, s.fn, s.ci, name); why != "" {
+			r.Ok("benign|"+key, pos, "a failure that cannot happen or cannot matter", why)
 			continue
 		}
 		r.Bad("dropped|"+key, pos, "the error is checked, returned or handled", "error result "+s.kind+": a failure here goes unnoticed")
